@@ -100,3 +100,17 @@ Definition m2p_step (x : xc) (addr : N) : sres :=
        | Some (pfn, _) =>
            Xlat (wadd (wshl pfn (shift x)) (N.land addr (N.ones (shift x))))
        end.
+
+(** a history of reads and conversions on an opened dump.  The C functions keep no state
+    between calls (xc_get_page and the two first_step functions read the index and the
+    file, nothing else), so the model of a history is the list of the single answers. *)
+Inductive xop := OpRead (mach : bool) (addr : N) | OpConv (mach : bool) (addr : N).
+Inductive xout := OutPage (idx : N) | OutConv (r : sres).
+
+Definition do_op (x : xc) (o : xop) : xout :=
+  match o with
+  | OpRead mach addr => OutPage (page_of x mach addr)
+  | OpConv mach addr => OutConv (if mach then m2p_step x addr else p2m_step x addr)
+  end.
+
+Definition run_history (x : xc) (ops : list xop) : list xout := List.map (do_op x) ops.
